@@ -38,28 +38,7 @@ func c12call(c *an.Ctx) {
 			ifaceKind = k.Val().ExactString()
 		}
 	}
-	// module predicates that are exactly `p.Kind() == reflect.Interface && p.IsNil()`
-	nilIfacePred := map[*types.Func]bool{}
-	for _, g := range p.Fns {
-		if g.Pkg != p.Jet || g.Obj == nil || g.Body == nil || g.Sig == nil || g.Sig.Params().Len() != 1 || len(g.Body.List) != 1 {
-			continue
-		}
-		ret, ok := g.Body.List[0].(*ast.ReturnStmt)
-		if !ok || len(ret.Results) != 1 {
-			continue
-		}
-		b, ok := an.Unparen(ret.Results[0]).(*ast.BinaryExpr)
-		if !ok || b.Op != token.LAND {
-			continue
-		}
-		param := g.Sig.Params().At(0)
-		if c12isNilIfaceTest(g.Info(), b, func(r ast.Expr) bool {
-			id, ok := an.Unparen(r).(*ast.Ident)
-			return ok && an.ObjOf(g.Info(), id) == types.Object(param)
-		}, ifaceKind) {
-			nilIfacePred[g.Obj] = true
-		}
-	}
+	nilIfacePred := nilIfacePreds(p, ifaceKind)
 	if funcKind == "" {
 		c.Undecided("C12.call", "reflect.Func", token.NoPos, "constant reflect.Func not found")
 		return
@@ -423,8 +402,10 @@ func c12call(c *an.Ctx) {
 						if !ok {
 							return false
 						}
+						// (a helper's parameter stands for the variable its one call site binds it to)
+						obj := boundObj(p, f, id)
 						for _, o := range tvars {
-							if an.ObjOf(info, id) == o {
+							if obj == o {
 								return true
 							}
 						}
@@ -832,4 +813,60 @@ func c12isNilIfaceTest(info *types.Info, b *ast.BinaryExpr, isRecv func(ast.Expr
 		}
 	}
 	return kindOK && nilOK
+}
+
+// boundObj: the object an identifier of f (or of a new helper spliced into f) stands for — a helper's parameter
+// that is bound at exactly one call site to a plain identifier stands for that identifier's object.
+func boundObj(p *an.Prog, f *an.Fn, id *ast.Ident) types.Object {
+	info := f.Info()
+	obj := an.ObjOf(info, id)
+	for depth := 0; depth < 3; depth++ {
+		v, ok := obj.(*types.Var)
+		if !ok {
+			break
+		}
+		binds := p.HelperBinds(f)[v]
+		if len(binds) != 1 {
+			break
+		}
+		bid, ok := an.Unparen(binds[0].Arg).(*ast.Ident)
+		if !ok {
+			break
+		}
+		obj = an.ObjOf(info, bid)
+	}
+	return obj
+}
+
+// nilIfacePreds: module predicates that are exactly `p.Kind() == reflect.Interface && p.IsNil()`
+func nilIfacePreds(p *an.Prog, ifaceKind string) map[*types.Func]bool {
+	nilIfacePred := map[*types.Func]bool{}
+	if ifaceKind == "" {
+		if rp := p.Jet.Imports["reflect"]; rp != nil {
+			if k, ok := rp.Types.Scope().Lookup("Interface").(*types.Const); ok {
+				ifaceKind = k.Val().ExactString()
+			}
+		}
+	}
+	for _, g := range p.Fns {
+		if g.Pkg != p.Jet || g.Obj == nil || g.Body == nil || g.Sig == nil || g.Sig.Params().Len() != 1 || len(g.Body.List) != 1 {
+			continue
+		}
+		ret, ok := g.Body.List[0].(*ast.ReturnStmt)
+		if !ok || len(ret.Results) != 1 {
+			continue
+		}
+		b, ok := an.Unparen(ret.Results[0]).(*ast.BinaryExpr)
+		if !ok || b.Op != token.LAND {
+			continue
+		}
+		param := g.Sig.Params().At(0)
+		if c12isNilIfaceTest(g.Info(), b, func(r ast.Expr) bool {
+			id, ok := an.Unparen(r).(*ast.Ident)
+			return ok && an.ObjOf(g.Info(), id) == types.Object(param)
+		}, ifaceKind) {
+			nilIfacePred[g.Obj] = true
+		}
+	}
+	return nilIfacePred
 }
